@@ -5,7 +5,7 @@ BS = [('0', '0'), ('SKIP', 'F_SKIP'), ('DIR', 'F_DIR'), ('SYNC', 'F_SYNC'), ('SY
       ('SYNC+SKIP', 'F_SYNC|F_SKIP'), ('SYNC+DIR', 'F_SYNC|F_DIR')]
 CB = [('0', '0'), ('SKIP', 'F_SKIP'), ('DIR', 'F_DIR'), ('OBO', 'F_OBO'), ('OBO+SKIP', 'F_OBO|F_SKIP'), ('OBO+DIR', 'F_OBO|F_DIR')]
 CALLER = {0: 'ext', 1: 'w0', 2: 'wlast'}
-NOTRUN = {0: 'allrun', 1: 't0-notstarted', 2: 'tlast-detached', 3: 't0-was-the-caller'}
+NOTRUN = {0: 'allrun', 1: 't0-notstarted', 2: 'tlast-detached', 3: 't0-was-the-caller', 4: 'all-in-stop-hook', 5: 'caller-queue-full'}
 
 
 def variants():
@@ -22,7 +22,11 @@ def variants():
                     continue            # documented: a pool thread cannot wait synchronously for itself
                 if W == 16 and fl[0] not in ('0', 'SYNC', 'SKIP', 'OBO', 'SYNC+DIR'):
                     continue
-                for notrun in (0, 1, 2, 3):
+                for notrun in (0, 1, 2, 3, 4, 5):
+                    if notrun == 5 and (caller != 1 or W not in (2, 3)):
+                        continue        # a pool thread with a really full queue broadcasts (the default schedule decides where it is full)
+                    if notrun == 4 and (caller != 0 or api != 0 or W not in (2, 3)):
+                        continue        # an outside caller broadcasts to a pool whose workers are all between loop and stop
                     if notrun == 3 and (caller != 0 or W == 1 or W > 3):
                         continue        # the outside caller ran pool thread 0 itself (attach_first) and left it again
                     if notrun == 1 and (caller == 1 or W == 1):
@@ -30,6 +34,8 @@ def variants():
                     if notrun == 2 and (caller == 2 or W == 1):
                         continue
                     for faults in (0, 1):
+                        if notrun == 5 and faults:
+                            continue
                         name = '%s/W%d/%s/%s/%s/%s' % ('bsend' if api == 0 else 'cbsend', W, CALLER[caller], fl[0],
                                                        NOTRUN[notrun], 'wfault' if faults else 'nofault')
                         out.append((name, W, caller, api, fl[1], notrun, faults))
@@ -52,6 +58,9 @@ def plan(tier, vs):
     jobs = []
     for v in vs:
         name, W, caller, api, fl, notrun, faults = v
+        if notrun == 5:                  # ~130 sends per execution: the default schedule (thorough: one preemption)
+            jobs.append((name, 0 if tier == 'quick' else 1, 0))
+            continue
         if tier == 'quick':
             if W == 2 and not faults:
                 jobs.append((name, 2, 2))
